@@ -402,6 +402,49 @@ func rulesTagTable(c *Ctx, r *Report) {
 			return
 		}
 		e := wEntry{t: ta.AssertedType, pos: ta.Pos()}
+		// one text per type: inside the arm nothing branches on the value (a special spelling for some values of a
+		// type — "inf" for both infinities, a short form for zero — is a text the reader's one decoder per letter
+		// does not invert); helpers of the module the value is handed to are looked into one level deep
+		var armVal ssa.Value
+		for _, ref := range *ta.Referrers() {
+			if ex, ok := ref.(*ssa.Extract); ok && ex.Index == 0 {
+				armVal = ex
+			}
+		}
+		var branches []string
+		for _, b := range wf.Blocks {
+			if armVal == nil || (b != okBlk && !okBlk.Dominates(b)) {
+				continue
+			}
+			if iff, ok := lastInstr(b).(*ssa.If); ok && dependsOn(iff.Cond, armVal, map[ssa.Value]bool{}) {
+				branches = append(branches, c.pos(iff.Cond.Pos()))
+			}
+			for _, ins := range b.Instrs {
+				cl, ok := ins.(*ssa.Call)
+				if !ok {
+					continue
+				}
+				g := cl.Call.StaticCallee()
+				if g == nil || g.Blocks == nil || !c.inModule(g) {
+					continue
+				}
+				for i, a := range cl.Call.Args {
+					if i >= len(g.Params) || !dependsOn(a, armVal, map[ssa.Value]bool{}) {
+						continue
+					}
+					for _, gb := range g.Blocks {
+						if giff, ok := lastInstr(gb).(*ssa.If); ok && dependsOn(giff.Cond, g.Params[i], map[ssa.Value]bool{}) {
+							branches = append(branches, c.pos(giff.Cond.Pos()))
+						}
+					}
+				}
+			}
+		}
+		if armVal != nil {
+			r.check(len(branches) == 0, "G2", "formats/sam.tagToText", "one text per type "+ta.AssertedType.String(), c.pos(ta.Pos()),
+				"the text written for a value of this type does not branch on the value: one encoding per type letter, the one the reader inverts",
+				fmt.Sprintf("the text written for a value of this type depends on a test of the value (%v): some values get a spelling of their own, which the reader's decoder for the letter does not turn back into the same value", branches))
+		}
 		for _, b := range wf.Blocks {
 			if b != okBlk && !okBlk.Dominates(b) {
 				continue
